@@ -56,12 +56,8 @@ ASSUMPTIONS = ['expected values come from integer microsecond arithmetic on date
                'exactly representable; advance_time_seconds also gets decimal floats whose nearest microsecond is '
                'unambiguous (distance < 0.001 us)',
                'utcnow_ts(microsecond=True) is compared within max(1e-6, 2 ulp) because a double cannot hold '
-               'microseconds beyond year ~2242; utcnow_ts() before 1970 with non-zero microseconds may floor or '
+               'microseconds beyond year ~2242; utcnow_ts() before 1970 with non-zero microseconds must floor (not '
                'truncate (DONT-CARE)',
-               'is_soon with an ISO-string argument: the code does not parse strings there (AttributeError); '
-               'a rejection by AttributeError/TypeError/ValueError is tolerated and counted in a histogram, a '
-               'returned verdict must still be the right one (DONT-CARE zone, reported to the maintainers of '
-               'the property list)',
                'cases where now, t or now+w would leave datetime.min..max are not generated (DONT-CARE), except '
                'for normalize_time where OverflowError is demanded exactly when the UTC instant is unrepresentable']
 SHARDS = {'quick': 1, 'thorough': 16}
@@ -464,9 +460,9 @@ def _check_clock_reading(ctx, case, tu, want_us, step):
     rel = want_us - EPOCH_US
     got, exc = _call(tu.utcnow_ts)
     ctx.clause('override-utcnow_ts')
+    # whole seconds of the instant (the sub-second part is dropped as time.struct_time does), i.e. the floor -
+    # also before 1970, where truncation toward zero would name a second that lies after the instant
     allowed = {rel // US}
-    if rel < 0 and rel % US:
-        allowed.add(-((-rel) // US))       # truncation toward zero: DONT-CARE zone
     if exc is not None or isinstance(got, bool) or not isinstance(got, (int, float)) or got not in allowed:
         ctx.fail('override-utcnow_ts', case, {'step': step, 'got': got, 'exc': exc, 'want': sorted(allowed),
                                               'now': want})
